@@ -1167,6 +1167,17 @@ class RTCSctpTransport(AsyncIOEventEmitter):
         # find stream
         inbound_stream = self._get_inbound_stream(chunk.stream_id)
 
+        # a FORWARD-TSN which moved the cumulative TSN half the number space
+        # ahead makes chunks still held for reassembly look new again
+        reassembly = inbound_stream.reassembly
+        if (
+            reassembly
+            and not uint32_gt(chunk.tsn, reassembly[-1].tsn)
+            and any(c.tsn == chunk.tsn for c in reassembly)
+        ):
+            self._sack_duplicates.append(chunk.tsn)
+            return
+
         # defragment data
         inbound_stream.add_chunk(chunk)
         self._advertised_rwnd -= len(chunk.user_data)
